@@ -456,7 +456,7 @@ func ruleCall(c *Ctx, mode string) *RuleResult {
 						}
 					case "sort_by", "reverse":
 						// (reverse fills a pre-sized slice by index: that every slot is overwritten is index arithmetic, not decided)
-						if tuple[0]&AStrings == 0 && elems.k == 'I' && string(elems.prov) != "elem(arg#0)" && !(name == "reverse" && string(elems.prov) == "elem(arg#0)+zero") {
+						if tuple[0]&AStrings == 0 && elems.k == 'I' && string(elems.prov) != "elem(arg#0)" && !(name == "reverse" && (string(elems.prov) == "elem(arg#0)+zero" || string(elems.prov) == "zero")) {
 							v.bad = append(v.bad, fmt.Sprintf("%s must return the elements of its array argument, returns elements %s", x.label, orNone(string(elems.prov))))
 						}
 					case "values":
